@@ -54,7 +54,8 @@ NESTED_IN_CLASS = ["class-before", "class-after", "class-after", "class-deep", "
 NESTED_IN_FUNCTION = ["inner-func", "inner-func", "inner-class"]
 NESTED_CLASS_NAMES = ["Options", "Meta", "_Helper", "State"]
 # attributes a class documents on ITSELF (`:cvar` lines of the class docstring) while its `__init__` takes further
-# parameters: the names are disjoint from ARGS, so a documented attribute never coincides with an `__init__` parameter
+# parameters: the names are disjoint from ARGS, so a documented attribute coincides with an `__init__` parameter only in
+# the stratum that asks for it (gen_obj(cvar_shared=True): one documented name is replaced by a parameter's)
 CVAR_NAMES = ["registry", "version", "backend", "tag", "kind_of_model", "verbose_name", "priority"]
 
 
@@ -91,12 +92,19 @@ def _nested_class(rng, ind, taken, doc_style, annotated, deep=False):
     return lines
 
 
-def gen_obj(rng, kind, name, doc_style, annotated, n_params, defaults, ret, class_doc=True, nested=None, n_cvars=0):
+def gen_obj(rng, kind, name, doc_style, annotated, n_params, defaults, ret, class_doc=True, nested=None, n_cvars=0,
+            cvar_shared=False, own_init=True):
     """source lines of one function or one class with __init__, plus its features.
     nested (default None: nothing nested, the stream of existing callers is unchanged): one of NESTED_IN_CLASS /
     NESTED_IN_FUNCTION
     n_cvars (default 0: none, stream unchanged): how many attributes the class docstring documents (`:cvar` lines); only
-    for a class that has a docstring"""
+    for a class that has a docstring
+    cvar_shared (default False: never, stream unchanged): one of the documented attributes carries the name of a
+    parameter of `__init__` (the class documents, on itself, something its `__init__` also takes)
+    own_init (default True, stream unchanged): False = a class WITHOUT an `__init__` of its own (n_params is ignored: the
+    class takes no parameters); whatever `nested` puts into it stays"""
+    if kind == "class" and not own_init:
+        n_params = 0
     params = rng.sample(ARGS, n_params)
     ptypes = [rng.choice(TYPED) for _ in params]
     ndef = rng.randint(0, n_params) if defaults else 0
@@ -147,6 +155,8 @@ def gen_obj(rng, kind, name, doc_style, annotated, n_params, defaults, ret, clas
             lines.append("    The %s class." % name)
             if n_cvars:
                 cvars = rng.sample(CVAR_NAMES, n_cvars)
+                if cvar_shared and params:
+                    cvars[rng.randrange(len(cvars))] = rng.choice(params)
                 lines.append("")
                 for cv in cvars:
                     lines.append("    :cvar %s: %s" % (cv, rng.choice(["the %s", "The %s of the class.", "Which %s it is filed under"]) % cv))
@@ -154,12 +164,15 @@ def gen_obj(rng, kind, name, doc_style, annotated, n_params, defaults, ret, clas
             lines.append("")
         if "class-before" in nested:
             lines += _nested_class(rng, "    ", params, ndoc, annotated) + [""]
-        lines.append("    def __init__(%s):" % ", ".join(["self"] + sig))
-        lines += doc
-        for p in params:
-            lines.append("        self.%s = %s" % (p, p))
-        if not params:
-            lines.append("        pass")
+        if own_init:
+            lines.append("    def __init__(%s):" % ", ".join(["self"] + sig))
+            lines += doc
+            for p in params:
+                lines.append("        self.%s = %s" % (p, p))
+            if not params:
+                lines.append("        pass")
+        elif not class_doc and "class-before" not in nested:
+            lines.append("    LABEL = %r" % name)
         if "class-after" in nested or "class-deep" in nested:
             lines += [""] + _nested_class(rng, "    ", params, ndoc, annotated, deep="class-deep" in nested)
         if "in-method" in nested:
@@ -176,6 +189,10 @@ def gen_obj(rng, kind, name, doc_style, annotated, n_params, defaults, ret, clas
         feat["nested"] = nested
     if kind != "function" and cvars:
         feat["cvars"] = cvars
+        if cvar_shared and any(c in params for c in cvars):
+            feat["cvar_shared"] = True
+    if kind != "function" and not own_init:
+        feat["own_init"] = False
     return lines, feat
 
 
@@ -209,8 +226,14 @@ def gen_input_module(rng, mostly_good=True, n_entries=None, kinds=None):
             # the class documents SOME attributes on itself; __init__ adds two or more further parameters
             n_cvars = rng.choice([1, 1, 2, 3])
             n_params = rng.choice([2, 3, 3, 4, 5, 6])
+        # two rarer shapes of a class: one documented attribute is also a parameter of __init__; no __init__ of its own
+        # (what it takes is nothing, whatever helper classes / local functions inside it define)
+        cvar_shared = bool(n_cvars) and rng.random() < 0.2
+        own_init = not (kind == "class" and rng.random() < 0.07)
+        if not own_init and nested is None and rng.random() < 0.6:
+            nested = rng.choice(NESTED_IN_CLASS)
         lines, feat = gen_obj(rng, kind, name, doc_style, annotated, n_params, rng.random() < 0.6, ret, class_doc,
-                              nested=nested, n_cvars=n_cvars)
+                              nested=nested, n_cvars=n_cvars, cvar_shared=cvar_shared, own_init=own_init)
         body += lines + ["", ""]
         key = name if rng.random() < 0.85 else rng.choice([name.lower() + "_k", "K" + name, name + "2"])
         entries.append({"key": key, "feat": feat})
